@@ -111,6 +111,12 @@ class Observed:
                     self.tables[key] = None
                     self.errs[key] = err_str(e)
                     self.exc[key] = e
+            self.hv = ''
+            for name in ['face_node', 'edge_node', 'face_edge', 'edge_face', 'face_face']:
+                try:
+                    self.hv += '1' if getattr(t, f'has_valid_{name}_connectivity') else '0'
+                except Exception:  # noqa: BLE001
+                    self.hv += 'E'
             for name in ['face_dimension', 'node_dimension', 'edge_dimension', 'max_node_dimension', 'two_dimension']:
                 try:
                     self.dims.append(str(getattr(t, name)))
@@ -136,6 +142,7 @@ class Observed:
 
     def line(self) -> str:
         parts = [f"{k}={rows_str(self.tables[k]) if self.tables[k] is not None else self.errs[k]}" for k in KEYS]
+        parts.append('hv=' + self.hv)
         parts.append('dims=' + ','.join(self.dims))
         if self.poly is None:
             parts.append('poly=' + self.poly_err)
